@@ -3,7 +3,7 @@ import json
 import random
 
 from vlib import core, pipeline as P, diffrun
-from vgen import gen as G, gen2 as G2, emit as E, xform as X, types as T, macros as M
+from vgen import gen as G, gen2 as G2, emit as E, xform as X, types as T, macros as M, corpus
 
 LEVEL = 'exploration'
 
@@ -88,12 +88,36 @@ def macro_cases(ctx, sz):
     return cases
 
 
+def corpus_cases(ctx, sz):
+    """hand-written recursive lattice programs (rows improved in place inside the recursive stratum): the order of rules, body items
+    and input tuples decides which row is visited before or after an improvement, and must not show in the result"""
+    cases = []
+    for f in [corpus.set_reach, corpus.sp_count, corpus.set_reach]:
+        rng = random.Random(ctx.rng.getrandbits(48))
+        name, prog, input_rels, mk = f(rng)
+        vds = make_variants(rng, prog, False)
+        case = P.Case('k%d_%s' % (len(cases), name), prog, [v for v, _ in vds], meta={'kind': 'corpus:' + name, 'variants': [d for _, d in vds]})
+        for ii in range(sz['inputs'] * 2):
+            rows = list(dict.fromkeys(mk(rng)))
+            for v in case.variants:
+                vrows = list(rows)
+                if v.name != 'base':
+                    rng.shuffle(vrows)
+                fwd = getattr(v, 'fwd', None)
+                if fwd:
+                    vrows = [fwd(rel, t) for rel, t in vrows]
+                case.jobs.append(P.Job('%s_i%d_%s' % (case.name, ii, v.name), case, v, vrows, meta={'expect': [rows]}))
+        cases.append(case)
+    return cases
+
+
 def gen_cases(ctx):
     sz = sizes(ctx)
     cases = []
     n = 0
     total = sz['cases'] + sz['pure_cases'] + sz['enum_cases']
     cases += macro_cases(ctx, sz)
+    cases += corpus_cases(ctx, sz)
     while n < total:
         rng = random.Random(ctx.rng.getrandbits(48))
         pure = sz['cases'] <= n < sz['cases'] + sz['pure_cases']
@@ -142,7 +166,7 @@ def run(ctx, only=None):
         cases = [c for c in cases if c.name == only]
     ctx.rule = ('each case = one logical program in 8-11 syntactic variants (rules / declarations / head clauses / independent body items permuted, first two clauses '
                 'swapped, variables renamed, relations renamed, all at once; for programs without interpreted functions also constants mapped injectively to sparse i64 and '
-                'to String with the column type changed; for programs with in-program macros the macro-local identifiers and rule variables renamed into a pool of adversarial spellings x, x1, x11, ...) x inputs (each variant gets its own shuffle of the input vectors). Oracle: every variant, mapped back, equals the '
+                'to String with the column type changed; hand-written recursive lattice programs (set of sources per node, shortest paths) in the same variants; for programs with in-program macros the macro-local identifiers and rule variables renamed into a pool of adversarial spellings x, x1, x11, ...) x inputs (each variant gets its own shuffle of the input vectors). Oracle: every variant, mapped back, equals the '
                 'reference of the base program (hence all variants are equal). non-trivial = reference non-trivial; distinct = distinct (variant text, input)')
     ctx.assumptions = ['reference evaluator', 'independence of permuted body items is decided on the AST: a permutation is used only if the rule stays well-scoped',
                        'renaming pools exclude identifiers reserved by generated code (leading/trailing underscore, cl1_val, tuple, ...), as the property allows']
